@@ -1,20 +1,9 @@
-//! ad-hoc probe: compile + run one ST source given on stdin, print errors and variables
-use std::io::Read;
+//! ad-hoc probe: run ST source from a file for 2 cycles, print errors and variables of instance Main
 use trust_runtime::harness::TestHarness;
 fn main() {
-    let mut src = String::new();
-    std::io::stdin().read_to_string(&mut src).unwrap();
+    let src = std::fs::read_to_string(std::env::args().nth(1).unwrap()).unwrap();
     match TestHarness::from_source(&src) {
-        Err(e) => println!("COMPILE ERROR: {e:?}"),
-        Ok(mut h) => {
-            let n: usize = std::env::args().nth(1).and_then(|s| s.parse().ok()).unwrap_or(1);
-            for _ in 0..n {
-                let r = h.cycle();
-                println!("cycle errors: {:?}", r.errors);
-            }
-            if let Some(trust_runtime::value::Value::Instance(id)) = h.runtime().storage().get_global("Main").cloned() {
-                if let Some(inst) = h.runtime().storage().get_instance(id) { println!("{:?}", inst.variables); }
-            }
-        }
+        Err(e) => println!("compile error: {e:?}"),
+        Ok(mut h) => { for _ in 0..2 { let r = h.cycle(); println!("cycle errors: {:?}", r.errors); } }
     }
 }
